@@ -18,30 +18,30 @@ Definition dinv (d : darr) (l : list V) : Prop := d_size d = length l /\ d_cells
 Lemma dinv_default : dinv da_default [].
 Proof. split; reflexivity. Qed.
 
-Lemma da_sized_eq nb n :
-  da_sized esz nb n = Ok (mk_da nb (map Some (repeat 0%N n)) n, S nb,
-                          EAlloc nb (esz * N.of_nat n) :: fill_evs (heap_nm nb) 0 n).
+Lemma da_sized_eq al nb n :
+  da_sized esz al nb n = Ok (mk_da (enc al nb) (map Some (repeat 0%N n)) n, S nb,
+                          EAlloc (enc al nb) (esz * N.of_nat n) :: fill_evs (heap_nm (enc al nb)) 0 n).
 Proof.
-  unfold da_sized. pose proof (fill_loop_gen n (heap_nm nb) [] [] 0%N) as F. cbn [app length] in F.
+  unfold da_sized. pose proof (fill_loop_gen n (heap_nm (enc al nb)) [] [] 0%N) as F. cbn [app length] in F.
   rewrite app_nil_r in F. rewrite F. cbn [bind]. now rewrite app_nil_r, map_repeat.
 Qed.
 Lemma da_sized_inv nb n : dinv (mk_da nb (map Some (repeat 0%N n)) n) (repeat 0%N n).
 Proof. split; cbn; [now rewrite repeat_length | reflexivity]. Qed.
 
-Lemma da_copy_ctor_eq nb o l : dinv o l ->
-  da_copy_ctor esz nb o = Ok (mk_da nb (map Some l) (length l), S nb,
-                              EAlloc nb (esz * N.of_nat (length l)) :: xfer_evs (heap_nm (d_blk o)) (heap_nm nb) 0 (length l)).
+Lemma da_copy_ctor_eq al nb o l : dinv o l ->
+  da_copy_ctor esz al nb o = Ok (mk_da (enc al nb) (map Some l) (length l), S nb,
+                              EAlloc (enc al nb) (esz * N.of_nat (length l)) :: xfer_evs (heap_nm (d_blk o)) (heap_nm (enc al nb)) 0 (length l)).
 Proof.
   intros (Hs & Hc). unfold da_copy_ctor. rewrite Hs, Hc.
-  pose proof (xfer_loop_gen l (heap_nm (d_blk o)) (heap_nm nb) [] [] [] [] eq_refl) as X.
+  pose proof (xfer_loop_gen l (heap_nm (d_blk o)) (heap_nm (enc al nb)) [] [] [] [] eq_refl) as X.
   cbn [app length] in X. rewrite !app_nil_r in X. rewrite X. reflexivity.
 Qed.
 Lemma da_copied_inv nb l : dinv (mk_da nb (map Some l) (length l)) l.
 Proof. split; reflexivity. Qed.
 
-Lemma da_destruct_eq d l : dinv d l ->
-  da_destruct esz d = Ok (destroy_evs (heap_nm (d_blk d)) 0 (length l)
-                          ++ (if Nat.eqb (d_blk d) 0 then [] else [EDealloc (d_blk d) (esz * N.of_nat (length l))])).
+Lemma da_destruct_eq al d l : dinv d l ->
+  da_destruct esz al d = Ok (destroy_evs (heap_nm (d_blk d)) 0 (length l)
+                          ++ (if Nat.eqb (d_blk d) 0 then [] else [EDealloc (reenc al (d_blk d)) (esz * N.of_nat (length l))])).
 Proof.
   intros (Hs & Hc). unfold da_destruct. rewrite Hs, Hc.
   pose proof (destroy_loop_gen l (heap_nm (d_blk d)) [] []) as D. cbn [app length] in D. rewrite !app_nil_r in D.
@@ -98,47 +98,47 @@ Fixpoint dref_ok (rs : rstate) (ops : list dop) : Prop :=
   match ops with [] => True | o :: r => dref_pre rs o /\ dref_ok (fst (dref_step rs o)) r end.
 
 Definition drel (st : dst) (rs : rstate) : Prop := forall r, dinv (dregs st r) (rs r).
-Lemma drel_set rg nb nb' rs r v l : drel (mk_dst rg nb) rs -> dinv v l ->
-  drel (mk_dst (set_reg rg r v) nb') (set_reg rs r l).
+Lemma drel_set rg al al' nb nb' rs r v l : drel (mk_dst rg al nb) rs -> dinv v l ->
+  drel (mk_dst (set_reg rg r v) al' nb') (set_reg rs r l).
 Proof. intros H Hv k. cbn [dregs]. unfold set_reg. destruct (Nat.eqb k r); [exact Hv | apply (H k)]. Qed.
 
 Lemma dstep_refines st rs o : drel st rs -> dref_pre rs o ->
   exists st' e, dstep esz st o = Ok (st', snd (dref_step rs o), e) /\ drel st' (fst (dref_step rs o)).
 Proof.
-  intros R P. destruct st as [rg nb]. pose proof R as R0. unfold drel in R0. cbn [dregs] in R0.
-  destruct o as [r n|r|r i x|r i|r|r s|r s|r s|r s|r s]; cbn [dstep dregs dnextb dref_step fst snd dref_pre] in *.
-  - rewrite (da_destruct_eq (rg r) (rs r) (R0 r)). cbn [bind]. rewrite da_sized_eq. cbn [bind].
+  intros R P. destruct st as [rg al nb]. pose proof R as R0. unfold drel in R0. cbn [dregs] in R0.
+  destruct o as [r n|r|r i x|r i|r|r s|r s|r s|r s|r s]; cbn [dstep dregs dals dnextb dref_step fst snd dref_pre] in *.
+  - rewrite (da_destruct_eq (al r) (rg r) (rs r) (R0 r)). cbn [bind]. rewrite da_sized_eq. cbn [bind].
     do 2 eexists; split; [reflexivity|]. eapply drel_set; [exact R | apply da_sized_inv].
-  - rewrite (da_destruct_eq (rg r) (rs r) (R0 r)). cbn [bind].
+  - rewrite (da_destruct_eq (al r) (rg r) (rs r) (R0 r)). cbn [bind].
     do 2 eexists; split; [reflexivity|]. eapply drel_set; [exact R | apply dinv_default].
   - rewrite (da_set_eq (rg r) (rs r) i x (R0 r) P). cbn [bind].
     do 2 eexists; split; [reflexivity|]. eapply drel_set; [exact R | apply da_set_inv].
   - rewrite (da_index_eq (rg r) (rs r) i (R0 r)). apply Nat.ltb_lt in P. rewrite P. cbn [bind].
     do 2 eexists; split; [reflexivity | exact R].
   - rewrite (da_empty_eq (rg r) (rs r) (R0 r)). do 2 eexists; split; [reflexivity | exact R].
-  - rewrite (da_copy_ctor_eq nb (rg s) (rs s) (R0 s)). cbn [bind].
-    rewrite (da_destruct_eq (rg r) (rs r) (R0 r)). cbn [bind].
+  - rewrite (da_copy_ctor_eq (al s) nb (rg s) (rs s) (R0 s)). cbn [bind].
+    rewrite (da_destruct_eq (al r) (rg r) (rs r) (R0 r)). cbn [bind].
     do 2 eexists; split; [reflexivity|]. eapply drel_set; [exact R | apply da_copied_inv].
-  - assert (R1 : drel (mk_dst (set_reg rg s da_default) nb) (set_reg rs s [])) by (eapply drel_set; [exact R | apply dinv_default]).
+  - assert (R1 : drel (mk_dst (set_reg rg s da_default) al nb) (set_reg rs s [])) by (eapply drel_set; [exact R | apply dinv_default]).
     pose proof (R1 r) as Hr. cbn [dregs] in Hr.
-    rewrite (da_destruct_eq _ _ Hr). cbn [bind].
+    rewrite (da_destruct_eq (al r) _ _ Hr). cbn [bind].
     do 2 eexists; split; [reflexivity|]. eapply drel_set; [exact R1 | apply R0].
   - destruct (Nat.eqb r s) eqn:E; [do 2 eexists; split; [reflexivity | exact R]|].
-    rewrite (da_destruct_eq (rg r) (rs r) (R0 r)). cbn [bind].
-    rewrite (da_copy_ctor_eq nb (rg s) (rs s) (R0 s)). cbn [bind].
+    rewrite (da_destruct_eq (al r) (rg r) (rs r) (R0 r)). cbn [bind].
+    rewrite (da_copy_ctor_eq (al s) nb (rg s) (rs s) (R0 s)). cbn [bind].
     do 2 eexists; split; [reflexivity|]. eapply drel_set; [exact R | apply da_copied_inv].
   - destruct (Nat.eqb r s) eqn:E; [do 2 eexists; split; [reflexivity | exact R]|].
-    rewrite (da_destruct_eq (rg r) (rs r) (R0 r)). cbn [bind].
+    rewrite (da_destruct_eq (al r) (rg r) (rs r) (R0 r)). cbn [bind].
     do 2 eexists; split; [reflexivity|].
-    eapply drel_set with (nb := nb); [eapply drel_set with (nb := nb) (nb' := nb); [exact R | apply R0] | apply dinv_default].
+    eapply drel_set with (al := al) (nb := nb); [eapply drel_set with (al := al) (al' := al) (nb := nb) (nb' := nb); [exact R | apply R0] | apply dinv_default].
   - do 2 eexists; split; [reflexivity|].
-    eapply drel_set with (nb := nb); [eapply drel_set with (nb := nb) (nb' := nb); [exact R | apply R0] | apply R0].
+    eapply drel_set with (al := al) (nb := nb); [eapply drel_set with (al := al) (al' := al) (nb := nb) (nb' := nb); [exact R | apply R0] | apply R0].
 Qed.
 
 Lemma dstep_pre_exact st rs o : drel st rs -> ~ dref_pre rs o -> dstep esz st o = UB.
 Proof.
-  intros R P. destruct st as [rg nb]. pose proof R as R0. unfold drel in R0. cbn [dregs] in R0.
-  destruct o as [r n|r|r i x|r i|r|r s|r s|r s|r s|r s]; cbn [dref_pre] in P; try (exfalso; apply P; exact I); cbn [dstep dregs].
+  intros R P. destruct st as [rg al nb]. pose proof R as R0. unfold drel in R0. cbn [dregs] in R0.
+  destruct o as [r n|r|r i x|r i|r|r s|r s|r s|r s|r s]; cbn [dref_pre] in P; try (exfalso; apply P; exact I); cbn [dstep dregs dals].
   - now rewrite (da_set_ub (rg r) (rs r) i x (R0 r) P).
   - rewrite (da_index_eq (rg r) (rs r) i (R0 r)).
     destruct (Nat.ltb i (length (rs r))) eqn:E; [apply Nat.ltb_lt in E; contradiction | reflexivity].
@@ -198,7 +198,7 @@ Lemma kstep_refines st l o : kinv st l -> kref_pre l o ->
 Proof.
   intros H P. destruct st as [[v] nb]. unfold kinv in *. cbn [fst container] in *.
   destruct o as [x|x| |]; cbn [kstep kref_step fst snd kref_pre] in *; unfold stk_push, stk_pop, stk_top; cbn [container].
-  1-2: rewrite (push_eq esz nb x v l H); cbn [bind]; do 2 eexists; split; [reflexivity|]; cbn [fst container]; now apply pushed_inv.
+  1-2: rewrite (push_eq esz 0 nb x v l H); cbn [bind]; do 2 eexists; split; [reflexivity|]; cbn [fst container]; now apply pushed_inv.
   - destruct (exists_last P) as (l' & x & ->). rewrite (pop_eq v l' x H). cbn [bind]. rewrite removelast_last.
     do 2 eexists; split; [reflexivity|]. cbn [fst container]. eapply popped_inv; exact H.
   - destruct (exists_last P) as (l' & x & ->). rewrite (back_eq v l' x H). cbn [bind]. rewrite last_last.
